@@ -262,6 +262,8 @@ class ParametricTransform:
             raise TypeError(
                 f"{type(self).__name__}.link() 'other' must be of the same type, got {type(other).__name__}"
             )
+        if "params" in self._parameters:
+            del self._parameters["params"]
         self.params = other
         if not hasattr(self, "p"):
             if other.params is None:
